@@ -97,6 +97,12 @@ class ReachingDefs:
             self.defs[n.id] = node_defs(cfg, n)
         self.IN: Dict[int, Dict[str, FrozenSet[int]]] = {
             n.id: {} for n in cfg.nodes}
+        # every name defined somewhere in the function also has the
+        # pseudo-definition PARAM at entry (parameter value / value the
+        # field or global had on entry), so that a path that skips all
+        # local definitions is visible
+        allnames = {nm for ds in self.defs.values() for nm, _ in ds}
+        self._entry_state = {nm: frozenset([PARAM]) for nm in allnames}
         self._solve()
 
     def _out(self, nid: int, state: Dict[str, FrozenSet[int]]
@@ -122,6 +128,8 @@ class ReachingDefs:
             inq.discard(nid)
             st_in = self.IN[nid]
             st_out = self._out(nid, st_in)
+            if nid == cfg.entry:
+                st_out = dict(self._entry_state)
             for succ, label in cfg.succ[nid]:
                 # exception edge: the definition may or may not have
                 # happened; merge both states
